@@ -216,6 +216,51 @@ func H10_effects() {
 			fields: []gField{{name: "f", terms: []string{"a", "b"}, tv: true, maxLocs: 1, fixLocs: true, dv: true, store: true, fixFreq: true}}})
 		return d
 	}
+	if !vSymbolic() {
+		// native replay: builds of different batches run in several goroutines at once and each result is
+		// checked against its own batch; under the race detector an effect violation found by the engine
+		// (a build storing into package-level state) shows up as a data race
+		errs := make(chan string, 64)
+		done := make(chan struct{}, 4)
+		var batches [4][]index.Document
+		var specs [4]*sSpec
+		for g := 0; g < 4; g++ {
+			pre := []string{"p", "q", "r", "s"}[g]
+			for d := 0; d < 2+g; d++ {
+				for fi := 0; fi < 2; fi++ {
+					vPin(fmt.Sprint(pre, "len", d, "_", fi, "_0"), uint64(1+d+fi)) // (analysed lengths are positive)
+				}
+			}
+			batches[g], specs[g] = vGenBatchFixed(gCfg{prefix: pre, idBase: pre, nDocs: 2 + g, wide: -1, maxAP: 1, fixAP: true,
+				fields: []gField{{name: "f", terms: []string{"a", pre}, tv: true, maxLocs: 1, fixLocs: true, dv: true, store: true, fixFreq: true},
+					{name: "g" + pre, terms: []string{"c"}, store: true, fixFreq: true}}})
+		}
+		for g := 0; g < 4; g++ {
+			go func(g int) {
+				defer func() { done <- struct{}{} }()
+				defer func() {
+					if r := recover(); r != nil {
+						errs <- fmt.Sprint(r)
+					}
+				}()
+				for i := 0; i < 30; i++ {
+					var zz ZapPlugin
+					seg, _, err := zz.newWithChunkMode(batches[g], DefaultChunkMode)
+					if err != nil {
+						errs <- "build error " + err.Error()
+						return
+					}
+					sCheckStored(seg, specs[g], "conc-")
+					sCheckPostings(seg, specs[g], "conc-")
+				}
+			}(g)
+		}
+		for g := 0; g < 4; g++ {
+			<-done
+		}
+		vAssert(len(errs) == 0, "concurrent-builds-interfere")
+		return
+	}
 	// first build materialises (initialises) the package state
 	_, _, err := z.newWithChunkMode(mk("a"), DefaultChunkMode)
 	vAssert(err == nil, "first-build")
